@@ -26,6 +26,8 @@ CHECKS["C08"] = ("exploration", "5.C08", "systematic walk of a finite WATCH scen
   "The catalogue of 50 writer templates x 8 key states x 10 routes is walked completely over run indices (evidence marks exhaustive when all rounds ran); the abort/no-abort verdict comes from the sequential model fed in the server's actual execution order. Expiry offsets, served blocking pops and random histories are sampled.")
 CHECKS["C13"] = ("exploration", "5.C13", "multi-connection simulation with virtual-clock timeouts and disconnect injection; conservation, FIFO, promptness and residue oracles at quiescent points, registry read through a guarded accessor",
   "Seeded search over histories of 2-5 clients with blocking pops, pushes by every path, timeouts driven by the virtual clock to just before/at/after each deadline, and blocked clients disconnecting. The sequential model follows the server's actual execution order; at quiescent points (two idle loop turns) conservation of the element multiset, absence of stranded waiters and of leftover registrations are checked. Interleavings are sampled.")
+CHECKS["C14"] = ("exploration", "5.C14", "multi-connection simulation of subscribers and publishers with exact execution order from the transport seam; per-subscriber expected frame sequences from a model with the harness' own glob matcher",
+  "Seeded search over subscribe/unsubscribe/publish/disconnect histories; from the server's read order the exact sequence of acknowledgement and push frames per subscriber and every PUBLISH count is predicted and compared frame by frame; nothing may be missing or surplus at the end. Histories sampled.")
 NOT_APPLICABLE = []
 def main():
     import json as _j
